@@ -366,7 +366,7 @@ func Gen(t *rapid.T, label string, cfg Config, o Opts) *Response {
 			}, nil)
 		case 15, 16: // subprotocol
 			base := Line{Name: nameVariant(t, L("pdev"), "Sec-WebSocket-Protocol"), Pre: " "}
-			kind := rapid.IntRange(0, 6).Draw(t, L("pkind"))
+			kind := rapid.IntRange(0, 8).Draw(t, L("pkind"))
 			if len(cfg.Protocols) == 0 && kind >= 3 {
 				kind = 0
 			}
@@ -386,10 +386,24 @@ func Gen(t *rapid.T, label string, cfg Config, o Opts) *Response {
 				a.Value = rapid.SampledFrom(cfg.Protocols).Draw(t, L("pdup1"))
 				b.Value = rapid.SampledFrom(cfg.Protocols).Draw(t, L("pdup2"))
 				protos = []Line{a, b}
-			case 5: // a list
-				base.Value = strings.Join(cfg.Protocols, ", ")
-				if len(cfg.Protocols) == 1 {
-					base.Value += ","
+			case 5, 7, 8: // a list that embeds a requested token
+				req := rapid.SampledFrom(cfg.Protocols).Draw(t, L("plistreq"))
+				other := strangerToken(t, L("pliststranger"), cfg.Requested, cfg.Protocols)
+				if len(cfg.Protocols) > 1 && rapid.Bool().Draw(t, L("plistboth")) {
+					other = rapid.SampledFrom(cfg.Protocols).Draw(t, L("plistreq2"))
+				}
+				sep := rapid.SampledFrom([]string{", ", ",", " ", " , ", "\t", ";", "; q="}).Draw(t, L("plistsep"))
+				switch rapid.IntRange(0, 4).Draw(t, L("plistform")) {
+				case 0:
+					base.Value = other + sep + req
+				case 1:
+					base.Value = req + sep + other
+				case 2:
+					base.Value = req + ","
+				case 3:
+					base.Value = "," + req
+				case 4:
+					base.Value = strings.Join(cfg.Protocols, sep) + sep + other
 				}
 				protos = []Line{base}
 			case 6: // requested one and a stranger in two lines
@@ -502,6 +516,34 @@ func Gen(t *rapid.T, label string, cfg Config, o Opts) *Response {
 	return r
 }
 
+// JunkPads are bytes that are not blanks (SP, HT) but that over-eager trimming
+// (bytes.TrimSpace, unicode.IsSpace) would strip: a right value padded with one
+// of them is a wrong value.
+var JunkPads = []string{"\v", "\f", "\r", "\x85", "\xc2\x85", "\xc2\xa0", "\x00", "\u2003", "\u3000"}
+
+// JunkPad pads the value of l (left, right or both) with one of JunkPads,
+// inside or outside the ordinary blanks.
+func JunkPad(t *rapid.T, label string, l Line) Line {
+	j := rapid.SampledFrom(JunkPads).Draw(t, label+".junk")
+	where := rapid.IntRange(0, 2).Draw(t, label+".where")
+	inner := rapid.Bool().Draw(t, label+".inner")
+	if where != 1 {
+		if inner {
+			l.Pre += j
+		} else {
+			l.Pre = j + l.Pre
+		}
+	}
+	if where != 0 {
+		if inner {
+			l.Post = j + l.Post
+		} else {
+			l.Post += j
+		}
+	}
+	return l
+}
+
 // deviate replaces the single right line of a required header by one of:
 // wrong, absent, duplicated good, duplicated mixed (either order), duplicated
 // wrong, a list value.
@@ -514,7 +556,9 @@ func deviate(t *rapid.T, label string, cur []Line, wrong func(Line) Line, lists 
 	if len(lists) == 0 {
 		max = 5
 	}
-	switch rapid.IntRange(0, max).Draw(t, label) {
+	switch rapid.IntRange(-1, max).Draw(t, label) {
+	case -1: // the right value, padded with something that is not a blank
+		return []Line{JunkPad(t, label+".pad", good)}
 	case 0, 1:
 		return []Line{wrong(good)}
 	case 2:
